@@ -36,12 +36,14 @@ def judge(c, r):
 def run(tier, wd):
     rep = core.Report(PROP, tier, "model_checking")
     binpath = core.build_harness()
-    res = core.run_tlc(wd, "MCDecl", timeout=1800)
+    q = tier == "quick"
+    res = core.run_tlc(wd, "MCDecl", cfg="MCDecl" if q else "MCDeclDeep", timeout=3000, extra=[] if q else ["-maxSetSize", "10000000"])
     core.tlc_must_finish(res, "Decl")
     rep.add_tlc(res)
     cases = [json.loads(p) for p in sorted(set(res.printed("DECL")))]
-    if len(cases) != 8420 + 1110:
-        raise core.Broken("Decl.tla emitted %d sequences, expected %d" % (len(cases), 8420 + 1110))
+    want = (8420 + 1110) if q else (20 + 20 ** 2 + 20 ** 3 + 20 ** 4 + 10 + 10 ** 2 + 10 ** 3 + 10 ** 4)
+    if len(cases) != want:
+        raise core.Broken("Decl.tla emitted %d sequences, expected %d" % (len(cases), want))
     results = core.run_harness(binpath, "decl", [{"kind": c["kind"], "decls": c["decls"]} for c in cases], wd)
     rnd = random.Random(core.seed())
     nontriv = 0
@@ -57,8 +59,8 @@ def run(tier, wd):
     rep.cov["traces_validated_against_impl"] = len(cases)
     rep.cov["distinct_nontrivial"] = nontriv
     rep.cov["exhaustive"] = True
-    rep.cov["rule"] = ("every sequence of 1..3 option declarations with name lists of 1..2 names over {a, b, ab, ba} (8420) and every sequence of 1..3 argument "
-                       "declarations over {X, Y, X1_, x, 1X, OPTIONS, X-Y, Xy, _X, X_Y} (1110): Decl.tla keeps the name table and says which declarations must panic; "
+    rep.cov["rule"] = ("every sequence of 1..3 (thorough: 1..4) option declarations with name lists of 1..2 names over {a, b, ab, ba} (8420 / 168420) and every sequence of 1..3 (1..4) argument "
+                       "declarations over {X, Y, X1_, x, 1X, OPTIONS, X-Y, Xy, _X, X_Y} (1110 / 11110): Decl.tla keeps the name table and says which declarations must panic; "
                        "each declaration is made on the library under recover, then every name of every accepted option is used on a command line and must set "
                        "exactly its own variable; non-trivial = the sequence contains a declaration that must panic")
     rep.assumptions += ["a name listed only by a rejected declaration is unclaimed when reused (the property does not say; the code leaves it half-registered)",
